@@ -294,6 +294,27 @@ class Check:
         sys.exit(rc)
 
 
+class ImplTimeout(Exception):
+    pass
+
+
+def with_timeout(fn, secs: float, *a, **kw):
+    """run fn(*a, **kw) in this process under a SIGALRM watchdog; raises ImplTimeout.
+    Used around calls into the implementation so that a non-terminating mutant is reported
+    instead of hanging the check."""
+    import signal
+
+    def handler(signum, frame):
+        raise ImplTimeout()
+    old = signal.signal(signal.SIGALRM, handler)
+    signal.setitimer(signal.ITIMER_REAL, secs)
+    try:
+        return fn(*a, **kw)
+    finally:
+        signal.setitimer(signal.ITIMER_REAL, 0)
+        signal.signal(signal.SIGALRM, old)
+
+
 def hexs(b) -> str:
     """hex of a bytes / list of small ints; '-' for empty (one token per field)."""
     b = bytes(b)
